@@ -35,7 +35,7 @@ type PlanResult struct {
 	Violations []Violation           `json:"violations,omitempty"`
 	Segments   map[string][][2]int64 `json:"segments,omitempty"` // group op id -> schedule taken
 	Tainted    bool                  `json:"tainted,omitempty"`
-	Writers    []string              `json:"writers,omitempty"`  // base64 bodies of requests after which the process-wide state fingerprint differed
+	Writers    []string              `json:"writers,omitempty"` // base64 bodies of requests after which the process-wide state fingerprint differed
 	Stats      PlanStats             `json:"stats"`
 	Plan       *Plan                 `json:"plan,omitempty"` // literal plan (with recorded schedules), attached when it violated
 }
@@ -47,12 +47,12 @@ type retained struct {
 }
 
 type planExec struct {
-	w        *World
-	plan     *Plan
-	results  map[string]*OpResult
-	handles  map[string]interface{}
-	retained []retained
-	out      *PlanResult
+	w          *World
+	plan       *Plan
+	results    map[string]*OpResult
+	handles    map[string]interface{}
+	retained   []retained
+	out        *PlanResult
 	handleDeep map[string]string // request values the library client holds, as they were when created
 }
 
@@ -78,6 +78,9 @@ func ExecPlan(w *World, plan *Plan) *PlanResult {
 		p0[k] = v
 	}
 	w.maxTicks = 0
+	for _, t := range plan.Tags {
+		x.out.Stats.Faults["workload-"+t]++
+	}
 	for i, op := range plan.Ops {
 		if op.ID == "" {
 			op.ID = fmt.Sprintf("op%d", i)
